@@ -644,8 +644,10 @@ def control_rootonly(repo):
 MUTATING_METHODS = {"append", "extend", "insert", "update", "setdefault", "pop", "clear", "remove", "add", "discard", "popitem", "sort"}
 
 
-def incidental_pure(repo, schema=None, sites=None):
-    """Traversal parameters are scoped to a branch of the IR only by a shallow copy of the parameter dict:
+def incidental_pure(repo, schema=None, sites=None, site_modules=None):
+    """`site_modules`: consider only the actions installed by traversals written in those modules (a property about
+    the C++ back end is concerned by the defaults the back end gathers, not by the scopes of the symbol resolver).
+    Traversal parameters are scoped to a branch of the IR only by a shallow copy of the parameter dict:
     an incidental action (or an action that returns overrides) must not mutate a parameter *value* in place,
     or the override leaks to sibling branches and later modules.  It may rebind the name to a copy first."""
     res = RuleResult("R-INCIDENTAL-PURE")
@@ -653,6 +655,8 @@ def incidental_pure(repo, schema=None, sites=None):
     sites = sites if sites is not None else collect_sites(repo, schema)
     funcs = {}
     for s in sites:
+        if site_modules is not None and not s.module.rel.endswith(tuple(site_modules)):
+            continue
         for t, fs in s.incidental.items():
             for f in fs:
                 if f is not None:
